@@ -72,10 +72,11 @@ def std_hooks():
         return None
 
     def icn(I, e, args, kw, env):
-        return children(args[0]) if isinstance(args[0], Obj) else TOP
+        # an iterator, as in the standard library: a loop that leaves it with `break` can come back to it later
+        return iter(list(children(args[0]))) if isinstance(args[0], Obj) else TOP
 
     def ifl(I, e, args, kw, env):
-        return iter_fields(args[0]) if isinstance(args[0], Obj) else TOP
+        return iter(list(iter_fields(args[0]))) if isinstance(args[0], Obj) else TOP
     return {'get_parent': get_parent, 'set_parent': set_parent, 'ast.iter_child_nodes': icn, 'ast.iter_fields': ifl, 'iter_child_nodes': icn, 'iter_fields': ifl}
 
 
